@@ -1412,5 +1412,290 @@ theorem new_bisim {σ : Type} {D : Decoder σ ℝ} {pos : σ → Nat} {good : σ
       noErr := rfl
       cap := rfl }
 
+
+/-! ### the ring invariant without any premise about pace (the decoder may starve the audio thread) -/
+
+/-- what the audio thread's render path can change: parameters, life-cycle core, fraction — and it pops entries -/
+structure AudioOnly {σ : Type} (s s' : Sys σ ℝ) : Prop where
+  cfg : s'.cfg = s.cfg
+  sampleRate : s'.sampleRate = s.sampleRate
+  cmds : s'.cmds = s.cmds
+  errRing : s'.errRing = s.errRing
+  reachedEnd : s'.reachedEnd = s.reachedEnd
+  encounteredError : s'.encounteredError = s.encounteredError
+  ds : s'.ds = s.ds
+  transport : s'.transport = s.transport
+  cap : s'.ring.cap = s.ring.cap
+  ring : ∃ k, s'.ring.items = s.ring.items.drop k
+
+theorem AudioOnly.refl {σ : Type} (s : Sys σ ℝ) : AudioOnly s s :=
+  ⟨rfl, rfl, rfl, rfl, rfl, rfl, rfl, rfl, rfl, ⟨0, by simp⟩⟩
+
+theorem AudioOnly.trans {σ : Type} {a b c : Sys σ ℝ} (h1 : AudioOnly a b) (h2 : AudioOnly b c) : AudioOnly a c := by
+  obtain ⟨k1, hk1⟩ := h1.ring
+  obtain ⟨k2, hk2⟩ := h2.ring
+  exact ⟨by rw [h2.cfg, h1.cfg], by rw [h2.sampleRate, h1.sampleRate], by rw [h2.cmds, h1.cmds],
+    by rw [h2.errRing, h1.errRing], by rw [h2.reachedEnd, h1.reachedEnd],
+    by rw [h2.encounteredError, h1.encounteredError], by rw [h2.ds, h1.ds], by rw [h2.transport, h1.transport],
+    by rw [h2.cap, h1.cap], ⟨k1 + k2, by rw [hk2, hk1, List.drop_drop]⟩⟩
+
+theorem stepPos_audioOnly {σ : Type} : ∀ (fuel : Nat) (s s' : Sys σ ℝ), Sys.stepPos fuel s = .ok s' → AudioOnly s s' := by
+  intro fuel
+  induction fuel with
+  | zero =>
+    intro s s' h
+    rw [Sys.stepPos] at h
+    split at h
+    · cases h
+    · injection h with h; subst h; exact AudioOnly.refl s
+  | succ fuel ih =>
+    intro s s' h
+    rw [Sys.stepPos] at h
+    split at h
+    · have h1 := ih _ _ h
+      rw [popFrame_eq] at h1
+      have h0 : AudioOnly s ({ s with frac := s.frac - (1.0 : ℝ), ring := { s.ring with items := s.ring.items.drop 1 } } : Sys σ ℝ) :=
+        ⟨rfl, rfl, rfl, rfl, rfl, rfl, rfl, rfl, rfl, ⟨1, rfl⟩⟩
+      exact h0.trans h1
+    · injection h with h; subst h; exact AudioOnly.refl s
+
+theorem checkEnd_audioOnly {σ : Type} (s : Sys σ ℝ) : AudioOnly s s.checkEnd := by
+  unfold Sys.checkEnd
+  split
+  · exact ⟨rfl, rfl, rfl, rfl, rfl, rfl, rfl, rfl, rfl, ⟨0, by simp⟩⟩
+  · exact AudioOnly.refl s
+
+theorem renderFrame_audioOnly {σ : Type} (fuel : Nat) (s s' : Sys σ ℝ) (t dt : ℝ) (f : Frame ℝ)
+    (h : s.renderFrame fuel t dt = .ok (s', f)) : AudioOnly s s' := by
+  unfold Sys.renderFrame at h
+  cases hs : Sys.stepPos fuel { s with frac := s.frac + s.fracStep t dt } with
+  | error e => simp [hs] at h
+  | ok s1 =>
+    simp only [hs] at h
+    injection h with h
+    injection h with h1 h2
+    subst h1
+    have h0 : AudioOnly s ({ s with frac := s.frac + s.fracStep t dt } : Sys σ ℝ) :=
+      ⟨rfl, rfl, rfl, rfl, rfl, rfl, rfl, rfl, rfl, ⟨0, by simp⟩⟩
+    exact (h0.trans (stepPos_audioOnly fuel _ _ hs)).trans (checkEnd_audioOnly s1)
+
+theorem renderLoop_audioOnly {σ : Type} (fuel : Nat) (dt : ℝ) (len : Nat) : ∀ (k i : Nat) (s s' : Sys σ ℝ)
+    (outs : List (Frame ℝ)), Sys.renderLoop fuel dt len k i s = .ok (s', outs) → AudioOnly s s' := by
+  intro k
+  induction k with
+  | zero => intro i s s' outs h; rw [Sys.renderLoop] at h; injection h with h; injection h with h1 _; subst h1; exact AudioOnly.refl s
+  | succ k ih =>
+    intro i s s' outs h
+    rw [Sys.renderLoop] at h
+    cases h1 : s.renderFrame fuel ((KOps.ofNat (i + 1) : ℝ) / (KOps.ofNat len : ℝ)) dt with
+    | error e => rw [h1] at h; exact absurd h (by simp)
+    | ok r =>
+      obtain ⟨s1, f⟩ := r
+      simp only [h1] at h
+      cases h2 : Sys.renderLoop fuel dt len k (i + 1) s1 with
+      | error e => rw [h2] at h; exact absurd h (by simp)
+      | ok r2 =>
+        obtain ⟨s2, fs⟩ := r2
+        simp only [h2] at h
+        injection h with h; injection h with h3 _; subst h3
+        exact (renderFrame_audioOnly fuel s s1 _ dt f h1).trans (ih (i + 1) s1 s2 fs h2)
+
+theorem process_audioOnly {σ : Type} (fuel : Nat) (s s' : Sys σ ℝ) (len : Nat) (dt : ℝ) (info : Info ℝ)
+    (outs : List (Frame ℝ)) (h : s.process fuel len dt info = .ok (s', outs)) : AudioOnly s s' := by
+  unfold Sys.process at h
+  split at h
+  · injection h with h; injection h with h1 _; subst h1
+    exact ⟨rfl, rfl, rfl, rfl, rfl, rfl, rfl, rfl, rfl, ⟨0, by simp⟩⟩
+  · rw [stream_processOk_eq] at h
+    have hg : AudioOnly s (gatedT s len dt info) := ⟨rfl, rfl, rfl, rfl, rfl, rfl, rfl, rfl, rfl, ⟨0, rfl⟩⟩
+    split at h
+    · split at h
+      · injection h with h; injection h with h1 _; subst h1; exact hg
+      · exact hg.trans (renderLoop_audioOnly fuel dt len len 0 _ _ _ h)
+    · injection h with h; injection h with h1 _; subst h1; exact hg
+
+/-- **the ring invariant**: decoder-side configuration intact, the ring holds entries `a … m − 1` of the
+    walk's sequence, no decoder command pending -/
+structure RingInv {σ : Type} (W : World) (pos : σ → Nat) (good : σ → Prop) (s : Sys σ ℝ) (a m : Nat) : Prop where
+  tIn : StreamIn W pos good s
+  tAt : StreamAt W s a m
+  a_le : a ≤ m
+  noSeek : s.cmds.setLoopRegion = none ∧ s.cmds.seekBy = none ∧ s.cmds.seekTo = none
+  cap : s.ring.cap = bufferSize
+
+theorem Bisim.ringInv {σ : Type} {W : World} {pos : σ → Nat} {good : σ → Prop} {st : StaticSound ℝ} {s : Sys σ ℝ}
+    {a m : Nat} (B : Bisim W pos good st s a m) : RingInv W pos good s (min a m) m := by
+  refine ⟨B.tIn, ?_, Nat.min_le_right _ _, B.noSeek, B.cap⟩
+  have hr : s.ring.items = W.ringSlice (min a m) m := by
+    rw [B.tAt.ring]
+    by_cases h : a ≤ m
+    · rw [Nat.min_eq_left h]
+    · rw [Nat.min_eq_right (by omega), W.ringSlice_empty a m (by omega), W.ringSlice_empty m m (Nat.le_refl _)]
+  exact ⟨hr, B.tAt.transport, B.tAt.m_pos, B.tAt.played, B.tAt.reached⟩
+
+theorem audioOnly_ringInv {σ : Type} {W : World} {pos : σ → Nat} {good : σ → Prop} {s s' : Sys σ ℝ} {a m : Nat}
+    (R : RingInv W pos good s a m) (h : AudioOnly s s') : ∃ a', a ≤ a' ∧ RingInv W pos good s' a' m := by
+  obtain ⟨k, hk⟩ := h.ring
+  refine ⟨min (a + k) m, ?_, ?_⟩
+  · have := R.a_le; omega
+  · refine ⟨⟨by rw [h.cfg]; exact R.tIn.cfg_slice, by rw [h.cfg]; exact R.tIn.cfg_n, by rw [h.ds]; exact R.tIn.inv⟩,
+      ⟨?_, by rw [h.transport]; exact R.tAt.transport, R.tAt.m_pos, R.tAt.played, by rw [h.reachedEnd]; exact R.tAt.reached⟩,
+      Nat.min_le_right _ _, by rw [h.cmds]; exact R.noSeek, by rw [h.cap]; exact R.cap⟩
+    rw [hk, R.tAt.ring, W.ringSlice_drop]
+    by_cases hle : a + k ≤ m
+    · rw [Nat.min_eq_left hle]
+    · rw [Nat.min_eq_right (by omega), W.ringSlice_empty (a + k) m (by omega), W.ringSlice_empty m m (Nat.le_refl _)]
+
+/-- **every step of every history keeps the ring invariant** — whatever the pace of the decoder -/
+theorem ringInv_step {σ : Type} {W : World} (hW : W.Ok) {D : Decoder σ ℝ} {pos : σ → Nat} {good : σ → Prop}
+    (C : Dec.Contract D W.frames.toList pos good) (fuel : Nat) (hfuel : W.frames.size < fuel)
+    {s s' : Sys σ ℝ} {a m : Nat} (R : RingInv W pos good s a m) (op : Op ℝ)
+    (hop : ∀ c, op = .command c → AudioCmd c) (out : List (Frame ℝ)) (h : Sys.step D fuel s op = .ok (s', out)) :
+    ∃ a' m', a ≤ a' ∧ m ≤ m' ∧ RingInv W pos good s' a' m' := by
+  cases op with
+  | command c =>
+    have hc := hop c rfl
+    injection h with h; injection h with h1 _; subst h1
+    refine ⟨a, m, Nat.le_refl _, Nat.le_refl _, ⟨R.tIn.cfg_slice, R.tIn.cfg_n, R.tIn.inv⟩, ⟨R.tAt.ring, R.tAt.transport, R.tAt.m_pos, R.tAt.played, R.tAt.reached⟩, R.a_le, ?_, R.cap⟩
+    obtain ⟨h1, h2, h3⟩ := R.noSeek
+    cases c with
+    | setLoopRegion r => exact absurd hc (by simp [AudioCmd])
+    | seekBy x => exact absurd hc (by simp [AudioCmd])
+    | seekTo x => exact absurd hc (by simp [AudioCmd])
+    | _ => exact ⟨h1, h2, h3⟩
+  | popError =>
+    injection h with h; injection h with h1 _; subst h1
+    refine ⟨a, m, Nat.le_refl _, Nat.le_refl _, ?_⟩
+    unfold Sys.popError
+    cases s.errRing.pop with
+    | none => exact R
+    | some r => exact ⟨⟨R.tIn.cfg_slice, R.tIn.cfg_n, R.tIn.inv⟩, ⟨R.tAt.ring, R.tAt.transport, R.tAt.m_pos, R.tAt.played, R.tAt.reached⟩, R.a_le, R.noSeek, R.cap⟩
+  | startProcessing =>
+    injection h with h; injection h with h1 _; subst h1
+    refine ⟨a, m, Nat.le_refl _, Nat.le_refl _, ?_⟩
+    rw [onStartProcessing_eq]
+    exact ⟨⟨R.tIn.cfg_slice, R.tIn.cfg_n, R.tIn.inv⟩, ⟨R.tAt.ring, R.tAt.transport, R.tAt.m_pos, R.tAt.played, R.tAt.reached⟩, R.a_le, R.noSeek, R.cap⟩
+  | process len dt info =>
+    obtain ⟨a', hle, R'⟩ := audioOnly_ringInv R (process_audioOnly fuel s s' len dt info out h)
+    exact ⟨a', m, hle, Nat.le_refl _, R'⟩
+  | decode =>
+    injection h with h; injection h with h1 _; subst h1
+    by_cases hre : s.reachedEnd = true
+    · simp only [hre, if_true]; exact ⟨a, m, Nat.le_refl _, Nat.le_refl _, R⟩
+    · have hre' : s.reachedEnd = false := by simpa using hre
+      simp only [hre', Bool.false_eq_true, if_false]
+      unfold Sys.threadIter
+      by_cases h0 : s.core.shared = .stopped
+      · have : Sys.run D fuel s = (.ok .end, s) := by unfold Sys.run; simp [h0]
+        rw [this]; exact ⟨a, m, Nat.le_refl _, Nat.le_refl _, R⟩
+      · by_cases hfull : s.ring.isFull = true
+        · have : Sys.run D fuel s = (.ok .wait, s) := by unfold Sys.run; simp [h0, hfull]
+          rw [this]; exact ⟨a, m, Nat.le_refl _, Nat.le_refl _, R⟩
+        · have hfull' : s.ring.isFull = false := by simpa using hfull
+          rw [run_eq_produce D fuel s h0 hfull' R.noSeek.1 R.noSeek.2.1 R.noSeek.2.2]
+          have hroom : m - a < s.ring.cap := by
+            unfold Ring.isFull at hfull'
+            rw [R.tAt.ring, W.ringSlice_length] at hfull'
+            simpa using hfull'
+          obtain ⟨ds', hinv', hp⟩ := produce_at hW C R.tIn R.tAt R.a_le hroom hre' fuel hfuel
+          rw [hp]
+          have hR : RingInv W pos good ({ s with ds := ds', ring := { s.ring with items := W.ringSlice a (m + 1) }, transport := W.trAt m, reachedEnd := !W.pl m } : Sys σ ℝ) a (m + 1) :=
+            { tIn := { cfg_slice := R.tIn.cfg_slice, cfg_n := R.tIn.cfg_n, inv := hinv' }
+              tAt := { ring := rfl, transport := rfl, m_pos := by omega
+                       played := by
+                         intro k hk
+                         have hpm : W.pl (m - 1) = true := by
+                           have := R.tAt.reached; rw [hre'] at this; simpa using this.symm
+                         have := R.tAt.m_pos
+                         exact W.pl_of_later k (m - 1) (by omega) hpm
+                       reached := rfl }
+              a_le := by have := R.a_le; omega
+              noSeek := R.noSeek
+              cap := R.cap }
+          refine ⟨a, m + 1, Nat.le_refl _, by omega, ?_⟩
+          cases hpl : W.pl m with
+          | true => rw [hpl] at hR; simpa using hR
+          | false => rw [hpl] at hR; simpa using hR
+
+
+/-- every history keeps the ring invariant -/
+theorem ringInv_run {σ : Type} {W : World} (hW : W.Ok) {D : Decoder σ ℝ} {pos : σ → Nat} {good : σ → Prop}
+    (C : Dec.Contract D W.frames.toList pos good) (fuel : Nat) (hfuel : W.frames.size < fuel) :
+    ∀ (ops : List (Op ℝ)) (s s' : Sys σ ℝ) (a m : Nat) (outs : List (Frame ℝ)),
+      (∀ c, Op.command c ∈ ops → AudioCmd c) → RingInv W pos good s a m →
+      Sys.runOps D fuel s ops = .ok (s', outs) → ∃ a' m', a ≤ a' ∧ m ≤ m' ∧ RingInv W pos good s' a' m' := by
+  intro ops
+  induction ops with
+  | nil =>
+    intro s s' a m outs _ R h
+    rw [Sys.runOps] at h; injection h with h; injection h with h1 _; subst h1
+    exact ⟨a, m, Nat.le_refl _, Nat.le_refl _, R⟩
+  | cons op ops ih =>
+    intro s s' a m outs hc R h
+    rw [Sys.runOps] at h
+    cases h1 : Sys.step D fuel s op with
+    | error e => rw [h1] at h; exact absurd h (by simp)
+    | ok r =>
+      obtain ⟨s1, o1⟩ := r
+      simp only [h1] at h
+      cases h2 : Sys.runOps D fuel s1 ops with
+      | error e => rw [h2] at h; exact absurd h (by simp)
+      | ok r2 =>
+        obtain ⟨s2, o2⟩ := r2
+        simp only [h2] at h
+        injection h with h; injection h with h3 _; subst h3
+        obtain ⟨a1, m1, ha1, hm1, R1⟩ := ringInv_step hW C fuel hfuel R op
+          (fun c hc' => hc c (by rw [hc']; exact List.mem_cons_self)) o1 h1
+        obtain ⟨a2, m2, ha2, hm2, R2⟩ := ih s1 s2 a1 m1 o2 (fun c hc' => hc c (List.mem_cons_of_mem _ hc')) R1 h2
+        exact ⟨a2, m2, by omega, by omega, R2⟩
+
+/-- the premise of a history restricts to its prefixes -/
+theorem Good.prefix {σ : Type} (D : Decoder σ ℝ) (fuel : Nat) : ∀ (pre post : List (Op ℝ)) (s : Sys σ ℝ),
+    Good D fuel (pre ++ post) s → Good D fuel pre s := by
+  intro pre
+  induction pre with
+  | nil => intro _ _ _; trivial
+  | cons op pre ih =>
+    intro post s h
+    obtain ⟨h1, h2⟩ := h
+    exact ⟨h1, fun s' out hs => ih post s' (h2 s' out hs)⟩
+
+/-! ### decoders that meet the `Decoder` contract: every packet size, every seek granularity -/
+
+/-- an in-memory decoder over `src` (state = cursor): packets of `c ≥ 1` frames, seeks land on multiples of `g ≥ 1`
+    (the suites' `ScriptDecoder` with a constant packet size and no failure) -/
+def chunkDecoder (src : List (Frame ℝ)) (c g : Nat) : Decoder Nat ℝ where
+  decode p := if p < src.length then .ok ((src.drop p).take (max 1 c), min src.length (p + max 1 c)) else .error .sym
+  seek _ i := .ok (min i src.length / max 1 g * max 1 g, min i src.length / max 1 g * max 1 g)
+
+theorem chunkDecoder_contract (src : List (Frame ℝ)) (c g : Nat) :
+    Dec.Contract (chunkDecoder src c g) src (fun p => p) (fun _ => True) where
+  decode_ok := by
+    intro p _ hp
+    have hp' : p < src.length := hp
+    refine ⟨(src.drop p).take (max 1 c), min src.length (p + max 1 c), ?_, ?_, ?_, ?_, ?_, trivial⟩
+    · simp [chunkDecoder, hp']
+    · intro hc
+      have h1 : ((src.drop p).take (max 1 c)).length = 0 := by rw [hc]; rfl
+      have h2 : 1 ≤ max 1 c := Nat.le_max_left _ _
+      simp at h1
+      omega
+    · have h2 : 1 ≤ max 1 c := Nat.le_max_left _ _
+      simp only [List.length_take, List.length_drop]
+      omega
+    · simp only [List.length_take, List.length_drop]
+      omega
+    · intro k hk
+      simp only [List.length_take, List.length_drop] at hk
+      rw [List.getElem?_take]
+      have : k < max 1 c := by omega
+      simp [this, List.getElem?_drop]
+  seek_ok := by
+    intro s i hi
+    refine ⟨_, _, rfl, ?_, rfl, trivial⟩
+    have h1 : min i src.length = i := Nat.min_eq_left hi
+    rw [h1]
+    exact Nat.div_mul_le_self _ _
+
 end Streaming
 end K
